@@ -17,9 +17,11 @@ EPS = 2.220446049250313e-16
 
 
 def _flush(v):
-    # XLA on CPU flushes subnormal numbers to zero, and products of two tiny normal numbers become subnormal: magnitudes
-    # below 1e-150 are not part of any input domain here (Hypothesis likes to propose 5e-324, 2.2e-309, ...)
-    return 0.0 if abs(v) < 1e-150 else v
+    # XLA on CPU flushes subnormal numbers to zero, and products of tiny normal numbers become subnormal; gen.floats draws
+    # shape parameters (angles, coefficients, fractions of O(1)), for which a magnitude below 1e-100 would put a dynamic range
+    # beyond 1e100 inside one tensor (same policy as snap below).  Hypothesis likes to propose 5e-324, 2.2e-309, 3.6e-136, ...
+    # Scales over many decades are drawn with logfloat, which is not affected.
+    return 0.0 if abs(v) < 1e-100 else v
 
 
 def floats(lo=None, hi=None, **kw):
